@@ -146,7 +146,13 @@ func runC04Multi(rec *Recorder, r *rand.Rand, idx int) {
 		case "pid":
 			fc.ControlAlgorithm = &configuration.ControlAlgorithmConfig{Pid: &configuration.PidControlAlgorithmConfig{P: 0.3, I: 0.02, D: 0.005}}
 		case "rate":
-			fc.ControlAlgorithm = &configuration.ControlAlgorithmConfig{Direct: &configuration.DirectControlAlgorithmConfig{MaxPwmChangePerCycle: &limit}}
+			// every fan has a limit of its own: the first fan (the one judged) the one drawn above, the others very
+			// different ones (a limit is a property of one fan's loop, like its state)
+			own := limit
+			if k > 0 {
+				own = []int{1, 2, 120, 255}[r.Intn(4)]
+			}
+			fc.ControlAlgorithm = &configuration.ControlAlgorithmConfig{Direct: &configuration.DirectControlAlgorithmConfig{MaxPwmChangePerCycle: &own}}
 		}
 		cfg.Fans = append(cfg.Fans, fc)
 	}
